@@ -43,6 +43,8 @@ unsafe fn symbolic_setup<T: Elem, U: Elem, const N: usize>(min_n: usize) -> Vec<
     }
     v.set_len(n);
     BUF_PTR = if core::mem::size_of::<T>() == 0 || v.capacity() == 0 { 0 } else { v.as_ptr() as usize };
+    BUF_BYTES = v.capacity() * core::mem::size_of::<T>();
+    BUF_ALIGN = core::mem::align_of::<T>();
     v
 }
 
@@ -192,6 +194,7 @@ pub fn post_fail_checks() {
         }
         if BUF_PTR != 0 {
             chk!(BUF_FREES == 1, "C09: the vector's allocation was not released exactly once");
+            chk!(!BUF_BAD_LAYOUT, "C09: the vector's allocation was released with a layout other than the one it was allocated with");
         } else {
             chk!(BUF_FREES == 0, "C09: a release of a non-existing allocation was observed");
         }
@@ -401,6 +404,10 @@ instances! {
     c09_zst_n3:      fail_arm<ZT, ZU, 3> unwind 5;
     c09_over16_n3:   fail_arm<O16T, O16U, 3> unwind 5;
     c09_big_n2:      fail_arm<BigT, BigU, 2> unwind 4;
+    c09_plain_to_tracked_n3: fail_arm<P32T, Tr4U, 3> unwind 5;
+    c09_tracked_to_plain_n3: fail_arm<Tr4T, P32U, 3> unwind 5;
+    c08_plain_to_tracked_n3: success<P32T, Tr4U, 3> unwind 5;
+    c08_tracked_to_plain_n3: success<Tr4T, P32U, 3> unwind 5;
     c09_twin_n3:     fail_twin<TrT, TrU, 3> unwind 5;
     // ---- C09, thorough
     c09_plain_n5:    fail_arm<P32T, P32U, 5> unwind 7;
